@@ -869,6 +869,73 @@ def strict_target(ctx):
                           kind="strict", history=[["get"]])
 
 
+class EarlyParent(HasTraits):
+    x = Int(1)
+
+
+class EarlyChild(HasTraits):
+    """assigns its prototyped attribute before the base class constructor
+    has run (the listeners are set up by that constructor)"""
+    parent = Instance(EarlyParent)
+    x = PrototypedFrom("parent")
+
+    def __init__(self, p, local, **kw):
+        self.parent = p
+        if local:
+            self.x = 5
+        super().__init__(**kw)
+
+
+def early_assignment_cells(ctx):
+    for local in (False, True):
+        for then in ((), ("del",), ("del", "set"), ("set",)):
+            case = {"kind": "early", "local": local, "then": list(then)}
+            ctx.case(case)
+            ctx.ev()
+            ctx.tr()
+            hist = [["early", local] + list(then)]
+            p = EarlyParent()
+            c = EarlyChild(p, local)
+            calls = []
+            c.on_trait_change(lambda new: calls.append(new), "x")
+            c.observe(lambda ev: calls.append(ev.new), "x")
+            has_local = local
+            for op in then:
+                try:
+                    if op == "del":
+                        del c.x
+                        has_local = False
+                    else:
+                        c.x = 6
+                        has_local = True
+                except Exception as exc:
+                    ctx.violation("C11:early:raises", "%s raised %r"
+                                  % (op, exc), kind="early", history=hist)
+            calls.clear()
+            p.x = p.x + 1
+            want_read = (6 if "set" in then else 5) if has_local else p.x
+            if c.x != want_read:
+                ctx.violation("C11:early:read", "reads %r, expected %r"
+                              % (c.x, want_read), kind="early", history=hist)
+            if has_local and calls:
+                ctx.outcome("unlinked-silent")
+                ctx.violation(
+                    "C11:early:forwarded-unlinked", "the attribute was "
+                    "given a local value %s; a change of the prototype "
+                    "still called its handlers with %r" % (
+                        "in the constructor, before the base class "
+                        "constructor ran" if local and "set" not in then
+                        else "later", calls), kind="early", history=hist)
+            elif not has_local and sorted(calls) != [p.x, p.x]:
+                ctx.violation(
+                    "C11:early:not-forwarded", "linked (no local value): a "
+                    "change of the prototype called the two handlers with "
+                    "%r" % (calls,), kind="early", history=hist)
+            else:
+                ctx.outcome("unlinked-silent" if has_local
+                            else "linked-notified")
+
+
 def run_history(ctx, kind, hist):
     if kind.startswith("cont-"):
         w = ContWorld(kind)
@@ -929,6 +996,7 @@ def run_shard(ctx, shard, tier):
         frontier = nxt
     if kind == "chain" and shard["first"] == 0:
         strict_target(ctx)
+        early_assignment_cells(ctx)
     ctx.depth_completed = depth
     ctx.sample({"kind": kind, "history": frontier[0] if frontier
                 else [evs[shard["first"]]]})
@@ -938,6 +1006,11 @@ def replay(rec):
     from mc.ctx import Ctx
     ctx = Ctx("C11", None, "quick", 0)
     c = rec.get("case") or rec
+    if c.get("kind") == "early" or rec.get("kind") == "early":
+        early_assignment_cells(ctx)
+        for v in ctx.violations.values():
+            print("  violation:", v["sig"], v["msg"])
+        return not ctx.violations
     if c.get("kind") == "strict" or rec.get("kind") == "strict":
         strict_target(ctx)
         for v in ctx.violations.values():
